@@ -443,7 +443,8 @@ void h_units(void)
         break;
     }
     case 7: {
-        __CPROVER_assume(in_y == 0 || !in_list(&LP0, in_y)); /* re-adding a child of P is outside the claim */
+        /* re-adding another child of P is outside the claim; replacing a child by itself is not */
+        __CPROVER_assume(in_y == 0 || !in_list(&LP0, in_y) || (in_index < LP0.n && in_y == LP0.d[in_index]));
         bool r = Model_replaceUnits__sz_ref(P_, in_index, in_y);
         if (in_index < LP0.n && in_y != 0)
             POST_REPLACED("Model::replaceUnits(index, units)", LU(P_), LU(Q_), r, LP0.d[in_index], in_y);
@@ -638,7 +639,7 @@ void h_components(void)
         break;
     }
     case 7: {
-        __CPROVER_assume(in_y == 0 || (!in_list(&LP0, in_y) && in_y != P_ && in_y != Q_ && in_y != GP_));
+        __CPROVER_assume(in_y == 0 || (!in_list(&LP0, in_y) && in_y != P_ && in_y != Q_ && in_y != GP_) || (in_index < LP0.n && in_y == LP0.d[in_index]));
         bool r = ComponentEntity_replaceComponent__sz_ref(P_, in_index, in_y);
         if (in_index < LP0.n && in_y != 0)
             POST_REPLACED("replaceComponent(index, component)", LC(P_), LC(Q_), r, LP0.d[in_index], in_y);
